@@ -84,7 +84,7 @@ def same(a, b) -> bool:
     return False
 
 
-CONTEXTS = ["from_dict", "ctor_dict", "binding", "nixlist", "setitem_parsed", "setitem_nested", "scope_setitem", "setitem_overwrite", "setitem_overwrite_nested", "overwrite_after_render", "overwrite_after_failed_render", "setitem_over_parsed"]
+CONTEXTS = ["from_dict", "ctor_dict", "binding", "nixlist", "setitem_parsed", "setitem_nested", "scope_setitem", "setitem_overwrite", "setitem_overwrite_nested", "overwrite_after_render", "overwrite_after_failed_render", "setitem_over_parsed", "attrpath_leaf", "attrpath_leaf_after_render"]
 
 
 def build(ctx, value, first=None):
@@ -147,6 +147,19 @@ def build(ctx, value, first=None):
         src["v"] = value
         src["n"]["v"] = value
         return src, (lambda d: d["v"] if same(d["v"], d["n"]["v"]) else ["top and nested differ", d["v"], d["n"]["v"]])
+    if ctx in ("attrpath_leaf", "attrpath_leaf_after_render"):
+        # the key was written in attrpath form (`m.v = …;`); in the second variant the document was rendered (rebuild, or a
+        # CLI edit of another key, which rebuilds) before the assignment
+        old = "\"old\"" if not isinstance(first, dict) else "{ k = 1; }"
+        src = nima.parse("{\n  m.v = %s;\n  m.w = 2;\n  n.deep.v = %s; # c\n  other = 1;\n}\n" % (old, old))
+        if ctx == "attrpath_leaf_after_render":
+            if isinstance(first, (list, str)):
+                nima.set_value(src, "other", "2")
+            else:
+                src.rebuild()
+        src["m"]["v"] = value
+        src["n"]["deep"]["v"] = value
+        return src, (lambda d: d["m"]["v"] if same(d["m"]["v"], d["n"]["deep"]["v"]) else ["top and nested differ", d["m"]["v"], d["n"]["deep"]["v"]])
     if ctx == "scope_setitem":
         src = nima.parse("let\n  k = 1;\nin\n{ a = k; }\n")
         src.expr.scope["v"] = value
@@ -375,7 +388,7 @@ def run_shard(sh):
         if feats & blocked_feats:
             sh.excluded += 1
             return
-        if "overwrite" not in ctx and ctx != "setitem_over_parsed":
+        if "overwrite" not in ctx and ctx != "setitem_over_parsed" and not ctx.startswith("attrpath_leaf"):
             first = None
         case = {"ctx": ctx, "value": _encode(value), "first": _encode(first)}
         fails = judge(ctx, value, first)
